@@ -5,12 +5,13 @@
 set -u
 d=$1; shift
 export GOFLAGS=-mod=mod GOPROXY=off GOSUMDB=off GOTOOLCHAIN=local
+VR=${VERIF_ROOT:-/verif}
 wt=/root/scratch/seedwt-$(basename $d)
 git -C /repo worktree remove --force $wt 2>/dev/null
 git -C /repo worktree add -q --detach $wt HEAD || exit 2
-if ! git -C $wt apply --whitespace=nowarn /verif/$d/patch.diff; then echo "$d: patch does not apply to HEAD"; git -C /repo worktree remove --force $wt; exit 2; fi
+if ! git -C $wt apply --whitespace=nowarn $VR/$d/patch.diff; then echo "$d: patch does not apply to HEAD"; git -C /repo worktree remove --force $wt; exit 2; fi
 for p in "$@"; do
-  out=$(cd /verif && bin/vcheck -repo $wt -nosave -prop $p -tier ${TIER:-quick} 2>&1)
+  out=$(cd $VR && VERIF_ROOT=$VR bin/vcheck -repo $wt -nosave -prop $p -tier ${TIER:-quick} 2>&1)
   rc=$?
   nv=$(echo "$out" | grep -c "^VIOLATION")
   echo "$d $p exit=$rc violations=$nv $(echo "$out" | grep '^property=' | tail -1)"
